@@ -905,8 +905,23 @@ pub fn check_conc(
               // poisoned. Other history-dependent panics are single-threaded
               // defects that C10 / C14 decide; here the scenario is skipped.
               && (m.contains("PoisonError")
-                || order.iter().take_while(|x| *x != &(*t, *i)).any(|(tt, ii)| {
+                || (order.iter().take_while(|x| *x != &(*t, *i)).any(|(tt, ii)| {
                   matches!(seq.answers[*tt][*ii], Answer::Aborted { .. })
+                }) && {
+                  // control: the same order with every stream run to its end.
+                  // If the call panics there too, the cancellation is not the
+                  // cause (a history-dependent panic of another kind).
+                  let mut uncancelled = scn.clone();
+                  for th in uncancelled.threads.iter_mut() {
+                    for o in th.iter_mut() {
+                      if let OpKind::Stream { abort_at, .. } = &mut o.kind {
+                        *abort_at = None;
+                      }
+                    }
+                  }
+                  let control = run_sequential(&uncancelled, knobs.shards, &order, cfg.consume, false);
+                  counters.inc("probe:panic_after_cancelled_stream_control_run");
+                  !control.answers[*t][*i].is_panic()
                 }))
             {
               violations.push(Violation {
